@@ -99,6 +99,10 @@ def c_op(o):
         ro = "None" if opt is None else "(Some {| ro_match := %s; ro_invoke := %s |})" % (
             c_opt(opt["match"]), c_opt(opt["invoke"]))
         return f"COp (ARegister {o[1]} {ro})"
+    if n == "inline":
+        r = c_op(o[2])
+        assert r.startswith("COp ")
+        return f"CInline ({c_op(o[1])}) {r[4:]}"
     if n == "unsubscribe": return f"CUnsub {o[1]}"
     if n == "unregister": return f"CUnreg {o[1]}"
     if n == "cancel": return f"CCancel {o[1]}"
@@ -262,6 +266,12 @@ class Shadow:
             if kind == "register": self.reg_futs.append(j)
         return self.next_id, j
 
+    def take_key(self, kind, rid):
+        for p in list(self.pending):
+            if p[0] == kind and p[1] == rid:
+                self.pending.remove(p)
+                self.answered.append(p[:2])
+
     def take(self, rng, kind=None):
         c = [p for p in self.pending if kind is None or p[0] == kind]
         if not c: return None
@@ -381,6 +391,43 @@ def success_reply(rng, sh, kind, rid):
     return ["unregistered", rid, None]
 
 
+def gen_inline_op(rng, sh):
+    """an API call whose reply is delivered from inside transport.send() (loopback / in-process router link)"""
+    kind = rng.choice(REQ_KINDS)
+    if kind == "unsubscribe":
+        if not sh.sub_futs: kind = "subscribe"
+        else: api = ["unsubscribe", rng.choice(sh.sub_futs)]; sh.next_id += 1
+    if kind == "unregister":
+        if not sh.reg_futs: kind = "register"
+        else: api = ["unregister", rng.choice(sh.reg_futs)]; sh.next_id += 1
+    if kind == "call":
+        a, kw = gen_api_payload(rng)
+        opt = {"timeout": None, "progress": rng.random() < 0.5, "details": rng.random() < 0.4} if rng.random() < 0.5 else None
+        api = ["call", rng.randrange(1, 6), a, kw, opt]; sh.new("call")
+    elif kind == "publish":
+        a, kw = gen_api_payload(rng)
+        api = ["publish", rng.randrange(1, 6), a, kw, {"ack": True, "excl": None}]; sh.new("publish")
+    elif kind == "subscribe":
+        api = ["subscribe", rng.randrange(1, 6), None]; sh.new("subscribe")
+    elif kind == "register":
+        api = ["register", rng.randrange(1, 6), None]; sh.new("register")
+    rid = sh.next_id
+    r = rng.random()
+    if r < 0.65:
+        reply = success_reply(rng, sh, kind, rid)
+        sh.take_key(kind, rid)
+    elif r < 0.85:
+        a, kw = gen_payload(rng)
+        reply = ["error", KIND_CODE[kind], rid, rng.randrange(1, 5), a, kw]
+        sh.take_key(kind, rid)
+    elif r < 0.92 and kind == "call":
+        a, kw = gen_payload(rng)
+        reply = ["result", rid, True, a, kw]
+    else:
+        reply = gen_reply_op(rng, sh, sh.next_id)
+    return ["inline", api, reply]
+
+
 def join_prefix(fw, sid=1234):
     return [["open"], ["turn"], ["welcome", sid], ["turn"], ["turn"]] if fw == "aio" else [["open"], ["welcome", sid]]
 
@@ -392,6 +439,8 @@ def gen_c04_history(rng, fw, nops):
         r = rng.random()
         if fw == "aio" and r < 0.22:
             ops.append(["turn"])
+        elif r < 0.12 + (0.22 if fw == "aio" else 0):
+            ops.append(gen_inline_op(rng, sh))
         elif r < 0.60 or not sh.next_id:
             ops.append(gen_api_op(rng, sh))
         else:
@@ -513,6 +562,28 @@ def expected_reply_content(op, req):
     return None
 
 
+def expand_inline(ops, trace, v):
+    """["inline", api, reply] whose request message was accepted by the transport is judged as the API call followed
+    by its reply (that is what "replies may arrive at any time after the request was handed to the transport" means):
+    the request message and the return of the API call go to the first, everything the reply caused to the second.
+    In addition the API call itself must not raise because its reply came early."""
+    o2, t2 = [], []
+    for op, evs in zip(ops, trace):
+        if op[0] != "inline":
+            o2.append(op); t2.append(evs); continue
+        api, reply = op[1], op[2]
+        k = next((i for i, e in enumerate(evs) if e[0] == "sent" and e[1][0] in REQUEST_MSGS), None)
+        if k is None:
+            o2.append(api); t2.append(evs); continue          # nothing was sent: the reply was never delivered
+        a_evs = [evs[k]] + [e for e in evs if e[0] in ("apiret", "apiraised")]
+        r_evs = [e for i, e in enumerate(evs) if i != k and e[0] not in ("apiret", "apiraised")]
+        if any(e[0] == "apiraised" for e in evs):
+            v.append((f"{api[0]}/reply-during-send/api-raised",
+                      f"{api} raised {[e[1] for e in evs if e[0] == 'apiraised']} because its reply {reply} arrived inside send()"))
+        o2 += [api, reply]; t2 += [a_evs, r_evs]
+    return o2, t2
+
+
 def oracle_c04(fw, cfg, ops, res):
     """returns list of (key, text).  Checks, on the implementation log only:
        ids sequential from 1 and within 1..2^53; one request message per API call with the given URI / args / options;
@@ -522,7 +593,7 @@ def oracle_c04(fw, cfg, ops, res):
        a reply matching no pending request raises ProtocolError and completes nothing; nothing but ProtocolError
        leaves onMessage."""
     v = []
-    trace = res["trace"]
+    ops, trace = expand_inline(ops, res["trace"], v)
     nreq = 0
     completed = {}
     reqs = {}            # (kind, id) -> {"j":..., "details":..., "open": bool, "reply": op or None}
@@ -669,7 +740,8 @@ def run(ck):
         "random histories on a joined session (<= 14 ops quick, <= 24 thorough, plus the join prefix) mixing the six "
         "request kinds (payload shapes none/args/kwargs/details, options), replies aimed at pending requests (success, "
         "error, progressive, duplicated, unknown id, ERROR with a foreign request type, reply of a foreign kind), "
-        "EVENT/INVOCATION/INTERRUPT noise, cancel/unsubscribe/unregister, asyncio loop turns at random points; run on the "
+        "EVENT/INVOCATION/INTERRUPT noise, cancel/unsubscribe/unregister, replies delivered re-entrantly from inside "
+        "transport.send() for all six request kinds (loopback router link), asyncio loop turns at random points; run on the "
         "real ApplicationSession under Twisted and asyncio and on the Gallina model (coqc, vm_compute); compared: per op "
         "the exact sequence of messages handed to the transport, future completions with content, on_progress calls, "
         "exceptions; non-trivial = at least one request sent and one router message processed; distinct = distinct "
